@@ -501,10 +501,11 @@ def toyVerify (algo hostKey H sig : Bytes) : Bool := sig == toySign algo hostKey
 
 def toyQ : Nat := 2305843009213693951   -- 2^61 - 1
 
-/-- toy "NIST" curve: a point is `04 ‖ v` with 16 bytes of `v`, valid ("on the curve") iff `v < toyQ`;
-    the shared secret is `v^d mod toyQ` in 8 bytes -/
+/-- toy "NIST" curve: a point `v < toyQ` has TWO encodings of 17 bytes, the canonical `04 ‖ v` (what
+    `public_bytes` produces) and the alternative `02 ‖ v` (a "compressed" form the decoder also accepts, as
+    `from_encoded_point` does); the shared secret is `v^d mod toyQ` in 8 bytes -/
 def toyNist : Curve where
-  decode b := b.length == 17 && b.head? == some 4 && decide (beVal (b.drop 1) < toyQ)
+  decode b := b.length == 17 && (b.head? == some 4 || b.head? == some 2) && decide (beVal (b.drop 1) < toyQ)
   pub d := 4 :: beBytes 16 (powMod 3 d toyQ)
   exchange d pt := .ok (beBytes 8 (powMod (beVal (pt.drop 1)) d toyQ))
 
